@@ -2,6 +2,8 @@ package main
 
 import (
 	"go/token"
+	"go/types"
+	"sort"
 	"strings"
 
 	"golang.org/x/tools/go/ssa"
@@ -210,7 +212,7 @@ func init() {
 		Explanation: "Decides the structural clause 'asOf and until are never confused and the range check precedes planning': role colouring of every store/argument/return that carries a time bound by name across six packages; positional wiring of asOfUntilFor/resolutionFor; TIMERANGE from/to → AsOf/Until; the asOf-before-table-asOf error precedes planning; the default window derives from the clock and the retention period. Added clauses: purity of the window operators; a window shorter than one stored period is rejected by the finer-than-source test on the window itself. Further clauses: ParseDuration's component loop carries only the remaining text and the total; the planner's Now is the database clock.",
 		NotDecided:  []string{"the three rounding rules (RoundTimeUp / UntilUp / UntilDown) at period boundaries", "Truncate/SubMerge alignment cases (values)"},
 		Assumptions: []string{"carrier roles follow the identifiers asOf/until, AsOf/Until, GetAsOf/GetUntil used consistently in this code base"},
-		Rules:       []func(*Ctx){func(c *Ctx) { ruleC07a(c, "C07.a") }, func(c *Ctx) { ruleC07b(c, "C07.b") }, func(c *Ctx) { ruleC07c(c, "C07.c") }, func(c *Ctx) { rulePurity(c, "C07.d") }, func(c *Ctx) { ruleC07e(c, "C07.e") }, func(c *Ctx) { ruleC07f(c, "C07.f") }, func(c *Ctx) { ruleC07g(c, "C07.g") }},
+		Rules:       []func(*Ctx){func(c *Ctx) { ruleC07a(c, "C07.a") }, func(c *Ctx) { ruleC07b(c, "C07.b") }, func(c *Ctx) { ruleC07c(c, "C07.c") }, func(c *Ctx) { rulePurity(c, "C07.d") }, func(c *Ctx) { ruleC07e(c, "C07.e") }, func(c *Ctx) { ruleC07f(c, "C07.f") }, func(c *Ctx) { ruleC07g(c, "C07.g") }, func(c *Ctx) { ruleC07h(c, "C07.h") }},
 	})
 }
 
@@ -406,4 +408,75 @@ func ruleC07g(c *Ctx, rule string) {
 		}
 	}
 	c.check(rule, "the planner's Now is DB.now", nw.Pos(), wired, "planner.Opts.Now = db.now", "planner.Opts.Now is not wired to (*DB).now")
+}
+
+// ruleC07h: composite expressions report the shift of their operands.
+func ruleC07h(c *Ctx, rule string) {
+	c.describe(rule, "reg: for every expression type in package expr that has operands (fields of type Expr), Shift() consults Shift() of each operand and its result depends on them — Sequence.SubMerge uses Expr.Shift() to reach back before asOf for shifted fields; a wrapper (IF, BOUNDED, aggregate, arithmetic) that reports 0 makes bounded queries lose the periods just after asOf of any shifted field it wraps (CROSSTAB wraps every field in IF)")
+	n := 0
+	var names []string
+	byName := map[string]*ssa.Function{}
+	for fn := range c.P.AllFns {
+		if fn.Name() != "Shift" || fn.Signature.Recv() == nil || fn.Synthetic != "" || len(fn.Blocks) == 0 || pkgOf(fn) != "z/expr" {
+			continue
+		}
+		nm := stableName(fn)
+		if _, dup := byName[nm]; !dup {
+			byName[nm] = fn
+			names = append(names, nm)
+		}
+	}
+	sort.Strings(names)
+	for _, nm := range names {
+		fn := byName[nm]
+		t := fn.Signature.Recv().Type()
+		if p, ok := t.(*types.Pointer); ok {
+			t = p.Elem()
+		}
+		st, ok := t.Underlying().(*types.Struct)
+		if !ok {
+			continue
+		}
+		var operands []string
+		for i := 0; i < st.NumFields(); i++ {
+			if typeStr(st.Field(i).Type()) == "z/expr.Expr" {
+				operands = append(operands, st.Field(i).Name())
+			}
+		}
+		if len(operands) == 0 {
+			continue
+		}
+		n++
+		c.touch(fn)
+		consulted := map[string]bool{}
+		for _, f := range withAnon(fn) {
+			for _, call := range calls(f) {
+				if calleeName(call) != "invoke (z/expr.Expr).Shift" {
+					continue
+				}
+				if _, fld, ok := fieldOf(call.Common().Value); ok && fld != nil {
+					consulted[fld.Name()] = true
+				}
+			}
+		}
+		var missing []string
+		for _, o := range operands {
+			if !consulted[o] {
+				missing = append(missing, o)
+			}
+		}
+		dep := true
+		for _, in := range instrs(fn) {
+			if r, isR := in.(*ssa.Return); isR {
+				if !dependsOn(r.Results[0], func(v ssa.Value) bool {
+					cl, ok := v.(*ssa.Call)
+					return ok && calleeName(cl) == "invoke (z/expr.Expr).Shift"
+				}) {
+					dep = false
+				}
+			}
+		}
+		c.check(rule, nm+" reports its operands' shift", fn.Pos(), len(missing) == 0 && dep, "consults "+strings.Join(operands, ", "), "Shift() of a composite expression does not derive from its operands' Shift() (ignored: "+strings.Join(missing, ", ")+"): SubMerge no longer reaches back before asOf for a shifted field wrapped in this expression, so a bounded query loses the periods right after asOf that the unbounded query reports")
+	}
+	c.floor(rule, "composite expression types with a Shift method", n, 5)
 }
